@@ -291,7 +291,11 @@ pub fn run(ctx: &Ctx) -> i32 {
                                 if let DVal::Obj(o) = &val {
                                     let j = rng.below(o.len());
                                     if let Some(alt) = gen::lookalike(&mut rng, &o[j].0) {
-                                        if !o.iter().any(|(k, _)| *k == alt) && !nested.contains(&alt) {
+                                        // (the look-alike must not be addressed itself: neither as a key of a
+                                        // block nor through a dotted top-level key)
+                                        let dotted = format!("{}.{}", name, alt);
+                                        let addressed = nested.contains(&alt) || top.iter().any(|t| *t == dotted || t.starts_with(&format!("{}.", dotted)) || t.starts_with(&format!("{}[", dotted)));
+                                        if !o.iter().any(|(k, _)| *k == alt) && !addressed {
                                             let mut removed_inner = o.clone();
                                             let (_, v) = removed_inner.remove(j);
                                             let mut renamed_inner = removed_inner.clone();
